@@ -486,6 +486,14 @@ type XZ struct {
 func GenXZ(r *sim.Rng, big bool) *XZ {
 	check := sim.Pick(r, []byte{refxz.CheckNone, refxz.CheckCRC32, refxz.CheckCRC64, refxz.CheckSHA256})
 	nb := r.Weighted([]int{1, 6, 3, 2})
+	many := false
+	switch {
+	case r.Chance(1, 150):
+		// the record count of the index needs a two-byte varint from 128 blocks on
+		nb, many = r.Range(120, 300), true
+	case big && r.Chance(1, 10):
+		nb, many = 16384+r.Intn(20), true // three bytes
+	}
 	x := &XZ{CheckID: check, Blocks: nb}
 	var blocks []refxz.BlockSpec
 	for i := 0; i < nb; i++ {
@@ -500,14 +508,16 @@ func GenXZ(r *sim.Rng, big bool) *XZ {
 		}
 		maxOps := r.Range(1, 60)
 		maxRaw := r.Range(1, 200)
-		if r.Chance(1, 10) && ds <= 1<<16 {
+		if many {
+			nch, maxOps, maxRaw = r.Intn(2), r.Range(1, 3), r.Range(1, 8)
+		} else if r.Chance(1, 10) && ds <= 1<<16 {
 			// uncompressed chunks larger than the declared dictionary
 			maxRaw = int(ds) * r.Range(1, 4)
 			if maxRaw > 1<<16 {
 				maxRaw = 1 << 16
 			}
 		}
-		if r.Chance(1, 12) {
+		if !many && r.Chance(1, 12) {
 			// content of several windows over the smallest dictionary: ring wrap in
 			// the reader, matches at the window edge after the wrap
 			db, ds = 0, 4096
@@ -515,7 +525,7 @@ func GenXZ(r *sim.Rng, big bool) *XZ {
 			maxOps = r.Range(100, 400)
 		}
 		kinds := RandomLegalKinds(r, nch)
-		cs := Realise(r, kinds, SeqOptions{MaxOpsPerChunk: maxOps, MaxRaw: maxRaw, DictSize: ds, BigChunk: big && r.Chance(1, 4)})
+		cs := Realise(r, kinds, SeqOptions{MaxOpsPerChunk: maxOps, MaxRaw: maxRaw, DictSize: ds, BigChunk: big && !many && r.Chance(1, 4)})
 		bs := refxz.BlockSpec{Data: cs.Stream, Content: cs.Content, DictByte: db,
 			WithCompSize: r.Chance(1, 3), WithUncomp: r.Chance(1, 3)}
 		if r.Chance(1, 6) {
